@@ -689,6 +689,16 @@ func wiringVariants(c *core.Ctx, rule string) {
 				}},
 			args: []eval.Value{msaFile, false, eval.S("REFID"), wr("reader:annotation"), eval.S("gb"), wr("writer:out"), eval.K(-1), eval.K(-1), false, eval.FConst(0), false, eval.K(1)}})
 	}
+	// the same for a GFF annotation: its ##sequence-region (named after the annotated genome, not after the record the
+	// user calls the reference) is one base shorter / longer than the degapped reference record
+	for _, end := range []int64{3, 5} {
+		scs = append(scs, wireScenario{label: fmt.Sprintf("GFF ##sequence-region of %d bases, reference record of 4", end), numCPU: 2, wantErr: true,
+			canned: map[string]wireCanned{"gff.ReadGFF": wireGFF(c, []string{"TTGA"}, end), "variants.RegionsFromGFF": wireRegions("gff"),
+				"variants.findReference": func(a []eval.Value, sig *types.Signature) eval.Value {
+					return eval.Tuple{encRecordSeq(c, "REFID", false), eval.Nil{}}
+				}},
+			args: []eval.Value{msaFile, false, eval.S("REFID"), wr("reader:annotation"), eval.S("gff"), wr("writer:out"), eval.K(-1), eval.K(-1), false, eval.FConst(0), false, eval.K(1)}})
+	}
 	dumpWiring(c, "pkg/variants", "Variants", scs[:1])
 	checkWiring(c, rule, "pkg/variants", "Variants", scs)
 }
